@@ -42,6 +42,12 @@ def gen_spec(rng, max_depth=6, bases=("sync", "pool"), types=LAYER_TYPES, vt=Fal
         if L["t"] == "throttle" and L.get("block") and any(U["t"] == "retry" for U in layers[k + 1:]):
             L["block"] = False
     base = rng.choice(list(bases))
+    # flat-map stages with an error function (its own generator, so that the other choices stay as they were): applied to a
+    # failed input only - never to the failure of the future the flat-map function handed back
+    frng = random.Random(repr(layers))
+    for L in layers:
+        if L["t"] == "flat_map":
+            L["error_fn"] = frng.choice([None, "recover", "refail", "recover"])
     return {"base": base, "workers": rng.choice([1, 2, 4, 8]), "layers": layers}
 
 
@@ -104,7 +110,12 @@ def build(ctx, spec, name=None, base_executor=None):
             fn = None
             if fk != "none":
                 fn = b.fns["fmap%d" % k] = Recorded("fmap%d" % k, make_flat_fn(fk, k))
-            cur = _with(cur, "flat_map", fn)
+            ek = L.get("error_fn")
+            if ek:
+                efn = b.fns["ferr%d" % k] = Recorded("ferr%d" % k, make_flat_error_fn(ek, k))
+                cur = _with(cur, "flat_map", fn, error_fn=efn)
+            else:
+                cur = _with(cur, "flat_map", fn)
         elif t == "retry" and L.get("policy") == "sleep_raises":
             ME = instr.ME
 
@@ -186,6 +197,15 @@ def make_flat_fn(kind, k):
             # the function succeeds; the future it hands back has failed
             return f_return_error(FlatFail("fm%d" % k, x))
         return f_return(("fm%d" % k, x))
+    return behave
+
+
+def make_flat_error_fn(kind, k):
+    def behave(idx, ex):
+        from more_executors.futures import f_return, f_return_error
+        if kind == "recover":
+            return f_return(("frec%d" % k, type(ex).__name__))
+        return f_return_error(OtherError("ferr%d" % k, ex))
     return behave
 
 
@@ -322,6 +342,11 @@ def model(spec, script):
                 if (fk == "failed_if_recovered" and _has_rec(o[1])) or (fk == "failed_on_odd" and _parity(o[1])):
                     return ("exc", FlatFail, "fmap%d" % k)
                 return ("value", ("fm%d" % k, o[1]))
+            ek = L.get("error_fn")
+            if ek == "recover":
+                return ("value", ("frec%d" % k, o[1].__name__))
+            if ek == "refail":
+                return ("exc", OtherError, "ferr%d" % k)
             return o
         if t == "poll":
             if o[0] == "value":
